@@ -1,5 +1,6 @@
 from __future__ import annotations
 
+import io
 import pprint
 import string
 import sys
@@ -226,7 +227,10 @@ def dumpstruct(
     if isinstance(obj, Structure):
         return _dumpstruct(obj, obj.dumps(), offset, color, output)
     if issubclass(obj, Structure) and data is not None:
-        return _dumpstruct(obj(data), data, offset, color, output)
+        # Only dump the bytes of the structure itself, not whatever follows it in the data
+        stream = io.BytesIO(data)
+        instance = obj(stream)
+        return _dumpstruct(instance, data[: stream.tell()], offset, color, output)
     raise ValueError("Invalid arguments")
 
 
